@@ -26,6 +26,7 @@ UNIT_PROPS = {
     "fetch_ancestry": ["C02", "C01"],
     "wire_codec": ["C15"],
     "term_line": ["C26"],
+    "cob_evaluate": ["C06"],
     "fetch_validate": ["C01"],
     "service_inventory": ["C11"],
 }
@@ -178,11 +179,11 @@ PROPS = {
         "not_decided": "The vote COUNT inside Identity::adopt (heads.values().filter(..).count() vs is_majority) and the voiding of other active revisions are iterator/closure code: adopt is a sink with an assumed frame (current stays or becomes id; verdicts/heads untouched). Representation invariant wf() of Identity is assumed, its preservation is not verified. Causal-order evaluation (change graph) is out of reach.",
     },
     "C06": {
-        "vx": ["cob_op"],
+        "vx": ["cob_op", "cob_evaluate"],
         "kx": [],
-        "technique": "Verus failure-frame postcondition on the extracted <Issue|Patch|Identity as store::Cob>::op with op_action/action as arbitrary-effect stand-ins",
-        "explanation": "For Issue, Patch and Identity: if `op` returns Err the object is exactly the value it had before the call, whatever the individual actions did before the failing one (actions are arbitrary-effect stand-ins, so the proof does not depend on which action fails or why).",
-        "not_decided": "That ChangeGraph::evaluate prunes the failed change and its dependents (decision inside a closure passed to Dag::prune_by) and signature checking of entries are not decided; only the per-operation atomicity is.",
+        "technique": "Verus failure-frame postcondition on the extracted <Issue|Patch|Identity as store::Cob>::op with op_action/action as arbitrary-effect stand-ins; contract on ChangeGraph::evaluate and on its prune_by filter closure (lifted verbatim to a named fn)",
+        "explanation": "For Issue, Patch and Identity: if `op` returns Err the object is exactly the value it had before the call, whatever the individual actions did before the failing one (actions are arbitrary-effect stand-ins, so the proof does not depend on which action fails or why). In ChangeGraph::evaluate (unit cob_evaluate) the filter handed to Dag::prune_by answers Break -- prune -- for every entry whose signature does not verify or which Evaluate::apply refuses, in both cases with the object exactly as it was before the call; on Continue the object is the result of applying that entry once; and no object is produced unless the root entry exists and its signature verifies.",
+        "not_decided": "That Dag::prune_by (radicle-dag) calls the filter once per reachable node in dependency order and removes the node with its dependents on Break is ASSUMED (stand-in without body), so the whole-history equation 'state == evaluation of the pruned history' follows only relative to that; Evaluate::apply's failure frame is a trait contract taken from the statement, proved for Issue/Patch/Identity::op only (Thread and External by inspection); what a valid signature is (ExtendedSignature::verify) is a ghost fact.",
     },
     "C07": {
         "vx": ["cob_auth", "cob_auth_patch"],
